@@ -501,20 +501,26 @@ func TestVerifRelocStreams(t *testing.T) {
 		{0xc7, 0x84, 0x24, 0x10, 0x01, 0x00, 0x00, 0x78, 0x56, 0x34, 0x12},       // movl $imm32, disp32(%rsp)   11 bytes
 		{0x48, 0xc7, 0x84, 0x24, 0x10, 0x01, 0x00, 0x00, 0x78, 0x56, 0x34, 0x12}, // movq $imm32, disp32(%rsp)   12 bytes
 	} {
-		for pad := 100; pad < 540; pad++ {
-			// every alignment around the 128 / 256 / 512 byte marks (chunk sizes a scanner may use), sparse elsewhere
+		for pad := 100; pad < vEnv("VERIF_LATEMAX", 1100); pad++ {
+			// every alignment around the 128 / 256 / 512 / 1024 / 2048 / 4096 byte marks (chunk sizes and caps a scanner may
+			// use), sparse elsewhere
 			pos := 15 + pad
 			near := false
-			for _, m := range []int{128, 256, 512} {
+			for _, m := range []int{128, 256, 512, 1024, 2048, 4096} {
 				if pos >= m-16 && pos <= m+2 {
 					near = true
 				}
 			}
-			if !near && pad%37 != 0 {
+			if !near && (pad >= 540 || pad%37 != 0) {
 				continue
 			}
 			code := []byte{0xb8, 0x78, 0x56, 0x34, 0x12, 0xb9, 0x78, 0x56, 0x34, 0x12, 0xba, 0x78, 0x56, 0x34, 0x12} // 3 x mov $imm32,%e?x
-			for i := 0; i < pad; i++ {
+			fill := pad
+			for fill >= 600 { // long bodies: mostly 8-byte NOPs (fewer instructions for the judge), the remainder one-byte pushes
+				code = append(code, 0x0f, 0x1f, 0x84, 0x00, 0x00, 0x00, 0x00, 0x00) // nopl 0x0(%rax,%rax,1)
+				fill -= 8
+			}
+			for i := 0; i < fill; i++ {
 				code = append(code, 0x50+byte(i%3)) // push %rax / %rcx / %rdx
 			}
 			code = append(code, long...)
